@@ -294,11 +294,54 @@ class ProtocolMonitor(Monitor):
         (EOM idle periods with an off-detuning are not pulses)."""
         return s["kind"] == "pulse" or (s["kind"] == "ddelay" and (ch, s["ti"]) in self._user(r))
 
+    # -- independent record of the phase-shift barriers ---------------------------------------------------
+    def _shadow(self, r: Runner) -> dict:
+        return r.__dict__.setdefault("_c03_shadow", {"last": {}, "bar": {}})
+
+    def _note_pulse(self, r: Runner, ev: Event) -> None:
+        """After a successful add: the atoms it drove were last used at its end; a post-phase-shift acts there."""
+        c = ev.post["chans"].get(ev.op["ch"])
+        if not c or not c["slots"] or c["slots"][-1]["kind"] not in ("pulse", "ddelay") or c["detmap"] is not None:
+            return
+        sl = c["slots"][-1]
+        sh = self._shadow(r)
+        basis = c["obj"].basis
+        last = sh["last"].setdefault(basis, {})
+        for q in sl["targets"]:
+            last[q] = max(last.get(q, 0), sl["tf"])
+        pps = ev.op["pulse"].get("pps") if ev.name == "add" else ev.op.get("pps")
+        if pps and not ev.op.get("cpd") and isinstance(pps, (int, float)):
+            bar = sh["bar"].setdefault(basis, {})
+            for q in sl["targets"]:
+                bar[q] = max(bar.get(q, 0), last[q])
+
+    def _note_shift(self, r: Runner, ev: Event) -> None:
+        """An explicit phase shift acts when the atom was last used (lower bound: the pulses this monitor saw)."""
+        sh = self._shadow(r)
+        basis = ev.op.get("basis", "digital")
+        qids = [str(q) for q in r.seq._register.qubit_ids]
+        tg = ev.op.get("targets") or None
+        if tg is None:
+            tgs = qids
+        elif ev.name == "phase_shift_index":
+            if not all(isinstance(i, int) for i in tg):
+                return
+            tgs = [qids[i] for i in tg]
+        else:
+            tgs = [str(t) for t in tg]
+        last, bar = sh["last"].get(basis, {}), sh["bar"].setdefault(basis, {})
+        for q in tgs:
+            bar[q] = max(bar.get(q, 0), last.get(q, 0))
+
     def after(self, r: Runner, ev: Event) -> None:
         if ev.exc is not None or ev.stage != "call" or not ev.post["flags"]["building"]:
             return
+        if ev.name in ("phase_shift", "phase_shift_index"):
+            self._note_shift(r, ev)
         if ev.name in ADD_OPS:
             self._check_add(r, ev)
+            if ev.name in ("add", "add_eom_pulse"):
+                self._note_pulse(r, ev)
             if ev.name in ("add", "add_dmm_detuning"):
                 c = ev.post["chans"].get(ev.op["ch"])
                 if c and c["slots"] and c["slots"][-1]["kind"] == "ddelay":
@@ -401,6 +444,18 @@ class ProtocolMonitor(Monitor):
             ctx.count("protocol:" + proto)
             if start < B:
                 ctx.violation("barrier", f"{ev.name} on {ch}: starts at {start} before the phase-shift barrier {B}", "barrier")
+            # the barrier as this monitor recorded it (a phase shift acts at the end of the latest pulse that drove the
+            # atom in that basis, on whichever channel), independent of the sequence's own bookkeeping
+            if cpre["detmap"] is None:
+                bar = self._shadow(r)["bar"].get(basis, {})
+                Bs = max([bar.get(q, 0) for q in tg] + [0])
+                ctx.count("barrier_shadow_checks")
+                if Bs > t0:
+                    ctx.count("barrier_shadow_beyond_channel_end")
+                if start < Bs:
+                    ctx.violation("barrier", f"{ev.name}({proto}) on {ch}: starts at {start}; a phase shift of one of its "
+                                  f"targets was made when that atom was last driven until {Bs} (on another channel of "
+                                  f"basis {basis})", "barrier-shadow")
             if C_lo is not None and start < C_lo:
                 ctx.violation("conflict", f"{ev.name}({proto}) on {ch}: starts at {start} but a pulse on another channel "
                               f"sharing a target is only down at {C_lo}", f"conflict:{proto}")
